@@ -132,8 +132,8 @@ PROPS = {
     ),
     "C14": dict(
         suites=[("dnsenc", 2500, 60000), ("dnsdec", 2500, 60000)],
-        extracted=["dns.pointerLimit", "dns.pointerDepthLimit", "dns.offsetStore"],
-        rule=DNS_RULE, assumptions=["round trip: messages up to 65535 octets (the property's range); totality of the encoder: no bound", "names of at most 127 labels of 1..63 octets (RFC 1035 limits; the code does not enforce the 255-octet name limit)"],
+        extracted=["dns.pointerLimit", "dns.pointerDepthLimit", "dns.offsetStore", "dns.nameOctetLimit"],
+        rule=DNS_RULE, assumptions=["round trip: messages up to 65535 octets (the property's range); totality of the encoder: no bound", "names of at most 255 octets with labels of 1..63 octets: exactly what the decoder accepts since fix bc2953f"],
         trusted=["Vec/LinkedList as lists; the suffix tree is modelled node for node"],
     ),
     "C04": dict(
